@@ -28,6 +28,29 @@ enum Msg {
     Fwd(u32),
 }
 
+/// the request as seen through a derived reference (`ActorRef::get_derived`, which has its own call / cast)
+struct DReq {
+    id: u32,
+    beh: Beh,
+    reply: RpcReplyPort<u32>,
+}
+impl From<DReq> for Msg {
+    fn from(d: DReq) -> Msg {
+        Msg::Req { id: d.id, beh: d.beh, reply: d.reply }
+    }
+}
+impl TryFrom<Msg> for DReq {
+    type Error = ();
+    fn try_from(m: Msg) -> Result<DReq, ()> {
+        match m {
+            Msg::Req { id, beh, reply } => Ok(DReq { id, beh, reply }),
+            _ => Err(()),
+        }
+    }
+}
+#[cfg(feature = "alt")]
+impl ractor::Message for DReq {}
+
 type L = Arc<Mutex<Vec<String>>>;
 
 struct Callee {
@@ -101,6 +124,8 @@ enum Exit {
 struct Sc {
     callers: Vec<(Beh, Option<u64>)>,
     exit: Exit,
+    /// every second caller goes through a derived reference
+    derived: bool,
 }
 
 fn call_body(sc: Sc) -> vsched::Body {
@@ -113,10 +138,15 @@ fn call_body(sc: Sc) -> vsched::Body {
             for (i, (beh, timeout)) in sc.callers.iter().enumerate() {
                 let c = c.clone();
                 let (beh, timeout) = (*beh, *timeout);
+                let sc_derived = sc.derived;
                 hs.push(vsched::spawn("caller", async move {
                     let id = (i + 1) as u32;
                     let t0 = vsched::now();
-                    let r = c.call(|reply| Msg::Req { id, beh, reply }, timeout.map(Duration::from_millis)).await;
+                    let r = if sc_derived && i % 2 == 1 {
+                        c.get_derived::<DReq>().call(|reply| DReq { id, beh, reply }, timeout.map(Duration::from_millis)).await.map_err(|_| ())
+                    } else {
+                        c.call(|reply| Msg::Req { id, beh, reply }, timeout.map(Duration::from_millis)).await.map_err(|_| ())
+                    };
                     let dt = vsched::now() - t0;
                     let r = match r {
                         Ok(CallResult::Success(v)) => format!("success {v}"),
@@ -347,6 +377,7 @@ fn forward_body(beh: Beh, timeout: Option<u64>, exit: Exit) -> vsched::Body {
             let flog: L = Arc::new(Mutex::new(vec![]));
             let (c, ch) = Actor::spawn(None, Callee { index: 1, log: log.clone() }, ()).await.expect("callee");
             let (f, fh) = Actor::spawn(None, Callee { index: 9, log: flog.clone() }, ()).await.expect("forward target");
+            let t0 = vsched::now();
             let h = c.call_and_forward(|reply| Msg::Req { id: 3, beh, reply }, &f, Msg::Fwd, timeout.map(Duration::from_millis));
             let c2 = c.clone();
             let closer = vsched::spawn("closer", async move {
@@ -390,6 +421,22 @@ fn forward_body(beh: Beh, timeout: Option<u64>, exit: Exit) -> vsched::Body {
                     }
                 }
             };
+            // the verdict and its time: Timeout exactly at T (never earlier: a callee that lost the port is a
+            // SenderError, at once), everything else no later than T
+            let took = vsched::now() - t0;
+            if let Some(t) = timeout {
+                if res == "timeout" && took < t * 1_000_000 {
+                    bad.push(format!("call_and_forward with timeout {t} ms reported Timeout after only {took} ns"));
+                }
+                if res != "send-failed" && res != "join-error" && took > t * 1_000_000 {
+                    bad.push(format!("call_and_forward with timeout {t} ms answered ({res}) after {took} ns"));
+                }
+            } else if res == "timeout" {
+                bad.push("call_and_forward without a timeout reported Timeout".to_string());
+            }
+            if beh == Beh::DropPort && exit == Exit::None && res != "sender-error" {
+                bad.push(format!("the callee dropped the reply port but the forward ended as {res}"));
+            }
             vsched::quiesce_time();
             c.stop(None);
             f.stop(None);
@@ -420,28 +467,35 @@ pub fn plan(tier: &str) -> Plan {
     let behs = [Beh::ReplyNow, Beh::ReplyAfterMs(5), Beh::Hold, Beh::DropPort, Beh::ReplyFromTask, Beh::ErrBeforeReply];
     for exit in [Exit::None, Exit::Stop, Exit::Kill, Exit::Drain] {
         // three concurrent callers with different behaviours
-        scs.push((format!("3callers/{exit:?}/mixed"), Sc { callers: vec![(Beh::ReplyNow, None), (Beh::ReplyFromTask, None), (Beh::ReplyAfterMs(5), Some(10))], exit }));
-        scs.push((format!("3callers/{exit:?}/hold+drop"), Sc { callers: vec![(Beh::Hold, None), (Beh::DropPort, None), (Beh::ReplyNow, None)], exit }));
+        scs.push((format!("3callers/{exit:?}/mixed"), Sc { callers: vec![(Beh::ReplyNow, None), (Beh::ReplyFromTask, None), (Beh::ReplyAfterMs(5), Some(10))], exit, derived: false }));
+        scs.push((format!("3callers/{exit:?}/hold+drop"), Sc { callers: vec![(Beh::Hold, None), (Beh::DropPort, None), (Beh::ReplyNow, None)], exit, derived: false }));
         for b in behs {
             if thorough || matches!((b, exit), (Beh::ReplyAfterMs(_), _) | (Beh::Hold, Exit::Kill) | (Beh::ErrBeforeReply, Exit::None) | (Beh::ReplyFromTask, Exit::Stop)) {
-                scs.push((format!("2callers/{exit:?}/{b:?}"), Sc { callers: vec![(b, None), (Beh::ReplyNow, Some(20))], exit }));
+                scs.push((format!("2callers/{exit:?}/{b:?}"), Sc { callers: vec![(b, None), (Beh::ReplyNow, Some(20))], exit, derived: false }));
             }
         }
     }
     // timeout relation: d < T, d == T, d > T
     for (d, t) in [(3u64, 5u64), (5, 5), (7, 5)] {
-        scs.push((format!("timeout/d{d}-T{t}"), Sc { callers: vec![(Beh::ReplyAfterMs(d), Some(t)), (Beh::Hold, Some(t))], exit: Exit::None }));
+        scs.push((format!("timeout/d{d}-T{t}"), Sc { callers: vec![(Beh::ReplyAfterMs(d), Some(t)), (Beh::Hold, Some(t))], exit: Exit::None, derived: false }));
     }
     // escalation: a graceful request, then a kill, with a handler that never returns: every caller must be
     // released (SenderError), the one being handled and the ones still queued
     for exit in [Exit::StopThenKill, Exit::DrainThenKill] {
-        scs.push((format!("escalation/{exit:?}/stuck+queued"), Sc { callers: vec![(Beh::Stuck, None), (Beh::ReplyNow, None), (Beh::Hold, None)], exit }));
-        scs.push((format!("escalation/{exit:?}/slow+now"), Sc { callers: vec![(Beh::ReplyAfterMs(5), None), (Beh::ReplyNow, Some(20))], exit }));
+        scs.push((format!("escalation/{exit:?}/stuck+queued"), Sc { callers: vec![(Beh::Stuck, None), (Beh::ReplyNow, None), (Beh::Hold, None)], exit, derived: false }));
+        scs.push((format!("escalation/{exit:?}/slow+now"), Sc { callers: vec![(Beh::ReplyAfterMs(5), None), (Beh::ReplyNow, Some(20))], exit, derived: false }));
     }
     // the zero timeout: an answer (possibly Timeout) at once, whatever the callee does with the port
-    scs.push(("timeout/zero/hold+late+now".into(), Sc { callers: vec![(Beh::Hold, Some(0)), (Beh::ReplyAfterMs(5), Some(0)), (Beh::ReplyNow, Some(0))], exit: Exit::None }));
-    scs.push(("timeout/zero/hold-vs-kill".into(), Sc { callers: vec![(Beh::Hold, Some(0)), (Beh::ReplyFromTask, Some(0))], exit: Exit::Kill }));
+    scs.push(("timeout/zero/hold+late+now".into(), Sc { callers: vec![(Beh::Hold, Some(0)), (Beh::ReplyAfterMs(5), Some(0)), (Beh::ReplyNow, Some(0))], exit: Exit::None, derived: false }));
+    scs.push(("timeout/zero/hold-vs-kill".into(), Sc { callers: vec![(Beh::Hold, Some(0)), (Beh::ReplyFromTask, Some(0))], exit: Exit::Kill, derived: false }));
     for (name, sc) in scs {
+        // the same through a derived reference for every second caller (all scenarios in the thorough tier, the
+        // multi-caller, timeout and escalation ones in the quick tier)
+        if thorough || name.starts_with("3callers") || name.starts_with("timeout") || name.starts_with("escalation") {
+            let mut d = sc.clone();
+            d.derived = true;
+            units.push(Unit::explore(Job::new(format!("call-derived/{name}").replace(['(', ')'], ""), cfg.clone(), Some(bound), call_body(d))));
+        }
         units.push(Unit::explore(Job::new(format!("call/{name}").replace(['(', ')'], ""), cfg.clone(), Some(bound), call_body(sc))));
     }
     for (behs, timeout, exit) in [
@@ -471,6 +525,10 @@ pub fn plan(tier: &str) -> Plan {
         (Beh::Hold, None, Exit::Kill),
         (Beh::DropPort, Some(5), Exit::Drain),
         (Beh::Hold, Some(0), Exit::None),
+        (Beh::DropPort, Some(50), Exit::None),
+        (Beh::Hold, Some(50), Exit::Kill),
+        (Beh::ErrBeforeReply, Some(50), Exit::None),
+        (Beh::Hold, Some(50), Exit::Stop),
     ] {
         units.push(Unit::explore(Job::new(format!("forward/{beh:?}/{timeout:?}/{exit:?}").replace(['(', ')'], ""), cfg.clone(), Some(bound + 1), forward_body(beh, timeout, exit))));
     }
